@@ -31,6 +31,19 @@ IS, BS = z3.IntSort(), z3.BoolSort()
 AbsParser = BuiltinClass('AbsParser')
 Null = z3.Function('Nullable', IS, BS)          # ghost: parser (by id) may succeed without consuming input
 N = z3.Int('N_text')
+# ghost: line / column of an index of the (fixed, abstract) text -- the functions LineAt / ColAt of C09.py for this text.  Invariant of ParseState, proved for the
+# position-moving primitives (skip_filler, take) in their own units and carried here: lineno == LineF(sidx), colno == ColF(sidx); every frame of the backtracking
+# stack and every recorded syntax error carries the line / column of SOME index 0 <= i <= N.
+LineF = z3.Function('LineOfIndex', IS, IS)
+ColF = z3.Function('ColOfIndex', IS, IS)
+
+
+def at_index(l, c, i):
+    return z3.And(z3_of(l) == LineF(z3_of(i)), z3_of(c) == ColF(z3_of(i)))
+
+
+def err_witnesses(I):
+    return I.ctx.ghost.setdefault('err_index', [])
 
 
 def world():
@@ -49,7 +62,8 @@ def mk_stream(I, rules=None, root='Root'):
     cls = _classes()['ParseState']
     s, l, c = ctx.fresh('sidx', 'int'), ctx.fresh('lineno', 'int'), ctx.fresh('colno', 'int')
     below = (ctx.fresh('below_s', 'int'), ctx.fresh('below_l', 'int'), ctx.fresh('below_c', 'int'))
-    ctx.assume(z3.And(N >= 0, 0 <= s, s <= N, l >= 1, c >= 1))
+    ctx.assume(z3.And(N >= 0, 0 <= s, s <= N, l >= 1, c >= 1, at_index(l, c, s)))
+    ctx.assume(z3.And(0 <= below[0], below[0] <= N, at_index(below[1], below[2], below[0])))      # frames were pushed by __enter__ at a consistent position
     has_err = ctx.fresh('has_error', 'bool')
     cur = [None, mk_error(I, 'prev')][ctx.choose([True, True], 'current_error before')]
     o = Obj(cls, dict(stream=Obj(BuiltinClass('Text'), {}, 'param'), sidx=s, lineno=l, colno=c, stack=[below], has_error=has_err,
@@ -64,6 +78,9 @@ def mk_error(I, tag):
     e = Obj(E, {'toks': Obj(BuiltinClass('TokSet'), {'v': ctx.fresh('toks_' + tag, 'int')}, 'fresh'), 'lineno': ctx.fresh('elineno_' + tag, 'int'),
                 'colno': ctx.fresh('ecolno_' + tag, 'int'), 'stream': None, 'args': ()}, 'fresh')
     e.complete = True
+    sp = ctx.fresh('eindex_' + tag, 'int')          # ghost: the index at which this error was raised
+    ctx.assume(z3.And(0 <= sp, sp <= N, at_index(e.fields['lineno'], e.fields['colno'], sp)))
+    err_witnesses(I).append(sp)
     return e
 
 
@@ -93,13 +110,13 @@ def install(I, st, nullable_of=None):
         log.append((via, what, ok, s0, s1))
         if ok:
             if pid is not None:
-                ctx.assume(z3.And(s0 + z3.If(Null(pid), 0, 1) <= s1, s1 <= N, l1 >= 1, c1 >= 1))
+                ctx.assume(z3.And(s0 + z3.If(Null(pid), 0, 1) <= s1, s1 <= N, l1 >= 1, c1 >= 1, at_index(l1, c1, s1)))
             else:
-                ctx.assume(z3.And(s0 <= s1, s1 <= N, l1 >= 1, c1 >= 1))
+                ctx.assume(z3.And(s0 <= s1, s1 <= N, l1 >= 1, c1 >= 1, at_index(l1, c1, s1)))
             if isinstance(output, list):
                 output.append(('produced-by', tag))
             return None
-        ctx.assume(z3.And(0 <= s1, s1 <= N, l1 >= 1, c1 >= 1))
+        ctx.assume(z3.And(0 <= s1, s1 <= N, l1 >= 1, c1 >= 1, at_index(l1, c1, s1)))
         if partial_on_failure and isinstance(output, list):
             # a parser OBJECT applied directly may have appended tokens before it failed (All does); only ParseState.parse restores
             output.append(('partial-output-of-failed', tag))
@@ -130,7 +147,7 @@ def same_pos(a, b):
 
 def in_bounds(st):
     s, l, c = pos(st)
-    return z3.And(0 <= s, s <= N, l >= 1, c >= 1)
+    return z3.And(0 <= s, s <= N, l >= 1, c >= 1, at_index(l, c, s))
 
 
 def stack_is(st, frames):
@@ -148,6 +165,10 @@ def K_post(I, out, st, entry, below, nullable, never_fails=False, restores_on_fa
         check_outcome(I, out, raises=obl)
         if out.value.cls.name == 'RINGSyntaxError' and not never_fails:
             I.ctx.oblige('on failure the position stays inside the text', in_bounds(st))
+            ef = out.value.fields
+            cands = list(err_witnesses(I)) + [pos(st)[0]]
+            I.ctx.oblige('the syntax error that leaves carries the line and column of an index of the text (0 <= index <= length)',
+                         z3.Or([z3.And(0 <= w, w <= N, at_index(ef['lineno'], ef['colno'], w)) for w in cands]) if 'lineno' in ef and 'colno' in ef else z3.BoolVal(False))
             I.ctx.oblige('on failure the backtracking stack is what it was', stack_is(st, [below]))
             if restores_on_failure:
                 I.ctx.oblige('on failure the position is the one at entry (everything tried was undone)', same_pos(pos(st), entry))
